@@ -243,6 +243,8 @@ def main(argv=None):
     from concurrent.futures import ProcessPoolExecutor, as_completed
     import multiprocessing as mp
 
+    if a.tier == "thorough" and "SYMLAS_XCHECK_EVERY" not in os.environ:
+        os.environ["SYMLAS_XCHECK_EVERY"] = "25"
     jobs = max(1, min(a.jobs, len(tasks)))
     with ProcessPoolExecutor(max_workers=jobs, mp_context=mp.get_context("spawn"), initializer=_worker_init, initargs=(modname, active)) as ex:
         futs = {ex.submit(_run_task, t, budget, max_paths, 2): t for t in tasks}
@@ -332,6 +334,8 @@ def main(argv=None):
             "solver_sat": st["sat"],
             "solver_unsat": st["unsat"],
             "solver_time_s": round(st["solver_s"], 2),
+            "second_solver": {"binary": "/usr/bin/z3 (4.8.12)", "unsat_verdicts_rechecked": st.get("xsolver_checked", 0), "confirmed": st.get("xsolver_agreed", 0), "timed_out": st.get("xsolver_timeout", 0),
+                              "note": "thorough tier: every 25th unsat query is dumped as SMT-LIB and re-decided by the independent z3 4.8.12 build; a different verdict or an (error line is exit 2"},
             "witness_targets": {w: (w in witnessed) for w in getattr(module, "WITNESS_TARGETS", [])},
             "cross_validated_paths": xcheck,
             "validation_cases": nvalid,
